@@ -67,10 +67,17 @@ MVerdict(q) ==
 \* (otherwise judging against the logged bitmaps would inherit a defect of is_bus_day / is_settlement)
 RECURSIVE InterAll(_, _)
 InterAll(sets, acc) == IF sets = <<>> THEN acc ELSE InterAll(Tail(sets), acc \cap Head(sets))
-ProjOK(e) == "mb" \in DOMAIN e =>
+\* and a calendar built from a holiday list and a week mask answers is_bus_day by exactly those (Calendar.BaseCal):
+\* whatever order the list was supplied in, with or without repeats
+DefOK(e) == "defs" \in DOMAIN e =>
+   LET rng == e.w0..(e.w0 + e.n - 1) IN
+   \A k \in 1..Len(e.defs) :
+      LET df == e.defs[k] hols == {df.hols[j] : j \in 1..Len(df.hols)} mask == {df.mask[j] : j \in 1..Len(df.mask)} IN
+      BitsToSet(df.bits, e.w0, e.n) = {d \in rng : Weekday(d) \notin mask /\ d \notin hols}
+ProjOK(e) == DefOK(e) /\ ("mb" \in DOMAIN e =>
    LET rng == e.w0..(e.w0 + e.n - 1) c == CalOfEvent(e) IN
    /\ c.bus = InterAll([k \in 1..Len(e.mb) |-> BitsToSet(e.mb[k], e.w0, e.n)], rng)
-   /\ c.stl = (IF e.hs THEN InterAll([k \in 1..Len(e.sb) |-> BitsToSet(e.sb[k], e.w0, e.n)], rng) ELSE rng)
+   /\ c.stl = (IF e.hs THEN InterAll([k \in 1..Len(e.sb) |-> BitsToSet(e.sb[k], e.w0, e.n)], rng) ELSE rng))
 BadOf(e) == IF e.op = "cal"
             THEN LET c == CalOfEvent(e) IN {k \in 1..Len(e.q) : Owned(e.q[k]) /\ Verdict(c, e.q[k]) = "bad"}
                                            \cup (IF ProjOK(e) THEN {} ELSE {0})
